@@ -154,9 +154,119 @@ func execute(cs Case, choose sched.Chooser) (sched.Result, *runInfo) {
 }
 
 // emitEvery: explored schedules are all checked by the oracle; one in emitEvery of the passing ones is
-// also sent to the Coq model (the model replay is the expensive part).
+// also sent to the Coq model (the model replay is the expensive part). Independently of that sample, a run
+// that contains a coverage feature (a model label, or a label-to-label transition inside a call) which fewer
+// than coverK model-replayed cases contain so far is always sent to the model (see coverage below).
 var emitEvery = 1
 var emitCount int
+
+// ---- label coverage of the model replay (audit item H1) ----
+
+// mapLabels: the labels of SyncMap/Model.v that a sync2.Map[int,int] program can execute (all but the keyed-mutex
+// labels KM_*/KRW_*), in the order of the Inductive.
+var mapLabels = []string{
+	"Load_read1", "Load_lock", "Load_read2", "Load_unlock", "E_load",
+	"Store_read1", "Store_lock", "Store_read2", "Store_amend", "Store_unlock",
+	"TryStore_load", "TryStore_cas", "Unexpunge_cas", "StoreLocked",
+	"LOS_read1", "LOS_lock", "LOS_read2", "LOS_amend", "LOS_unlock",
+	"Tlos_load1", "Tlos_cas", "Tlos_load2",
+	"LAD_read1", "LAD_lock", "LAD_read2", "LAD_unlock", "Delete_load", "Delete_cas",
+	"Range_read1", "Range_lock", "Range_read2", "Range_promote", "Range_unlock", "Range_iter",
+	"Miss_store", "Dirty_read", "Dirty_iter", "Expunge_load1", "Expunge_cas", "Expunge_load2",
+}
+
+// branches: transitions (consecutive labels of one goroutine inside one call) that show a failed CAS or a
+// further iteration of a CAS loop; reported by name in the statistics.
+var branches = [][2]string{
+	{"cas_retry_tryStore", "TryStore_cas>TryStore_load"},
+	{"cas_retry_delete", "Delete_cas>Delete_load"},
+	{"cas_fail_tlos", "Tlos_cas>Tlos_load2"},
+	{"cas_loop_tlos", "Tlos_load2>Tlos_cas"},
+	{"cas_fail_expunge", "Expunge_cas>Expunge_load2"},
+	{"cas_loop_expunge", "Expunge_load2>Expunge_cas"},
+}
+
+const coverK = 5          // every feature is replayed on the model in at least its first coverK runs
+const coverMaxSteps = 400 // ... unless the run is one of the deliberately huge oracle-only histories
+
+type coverage struct {
+	executed map[string]int // feature -> runs of the real code containing it
+	replayed map[string]int // feature -> runs sent to the Coq model containing it
+}
+
+var cov = coverage{map[string]int{}, map[string]int{}}
+
+// features of a run: every label, and every transition a>b between consecutive steps of the same goroutine
+// where b is not the first label of a call (so a transition is a branch taken inside a call, nested calls of a
+// callback included).
+func features(steps []sched.Step) []string {
+	set := map[string]bool{}
+	last := map[int]string{}
+	for _, s := range steps {
+		set[s.Label] = true
+		if p, ok := last[s.T]; ok && !strings.HasSuffix(s.Label, "_read1") {
+			set[p+">"+s.Label] = true
+		}
+		last[s.T] = s.Label
+	}
+	out := make([]string, 0, len(set))
+	for f := range set {
+		out = append(out, f)
+	}
+	sort.Strings(out)
+	return out
+}
+
+// coverageReport writes the table into the statistics (label_<name> = number of model-replayed cases that contain
+// the label) and names what was never reached.
+func coverageReport(c *core.Ctx, labels []string) {
+	var neverRun, neverReplayed []string
+	labelsReplayed := 0
+	for _, l := range labels {
+		c.Stats["label_"+l] = cov.replayed[l]
+		if cov.executed[l] == 0 {
+			neverRun = append(neverRun, l)
+		} else if cov.replayed[l] == 0 {
+			neverReplayed = append(neverReplayed, l)
+		} else {
+			labelsReplayed++
+		}
+	}
+	for _, b := range branches {
+		c.Stats["branch_"+b[0]] = cov.replayed[b[1]]
+		c.Stats["branch_"+b[0]+"_runs"] = cov.executed[b[1]]
+		if cov.executed[b[1]] == 0 {
+			neverRun = append(neverRun, b[0])
+		} else if cov.replayed[b[1]] == 0 {
+			neverReplayed = append(neverReplayed, b[0])
+		}
+	}
+	trans, transReplayed := 0, 0
+	var transOnlyRun []string
+	for f, n := range cov.executed {
+		if !strings.Contains(f, ">") || n == 0 {
+			continue
+		}
+		trans++
+		if cov.replayed[f] > 0 {
+			transReplayed++
+		} else {
+			transOnlyRun = append(transOnlyRun, f)
+		}
+	}
+	sort.Strings(transOnlyRun)
+	c.Stats["transitions_executed"] = trans
+	c.Stats["transitions_replayed_on_model"] = transReplayed
+	if c.NoModel {
+		c.Note(fmt.Sprintf("label coverage (tier %s, no model replay): %d of %d model labels executed by the real code; never executed: %v",
+			c.Tier, labelsReplayed+len(neverReplayed), len(labels), neverRun))
+		return
+	}
+	c.Note(fmt.Sprintf("label coverage of the model replay: %d of %d model labels and %d of %d executed in-call label transitions occur in a model-replayed case "+
+		"(each in at least min(%d, number of runs containing it) replayed cases, runs longer than %d steps excepted); never executed by the real code: %v; "+
+		"executed but never replayed on the model: labels/branches %v, transitions %v",
+		labelsReplayed, len(labels), transReplayed, trans, coverK, coverMaxSteps, neverRun, neverReplayed, transOnlyRun))
+}
 
 func report(c *core.Ctx, cs Case, r sched.Result, info *runInfo) {
 	cs.Choices = r.Chosen
@@ -174,6 +284,13 @@ func report(c *core.Ctx, cs Case, r sched.Result, info *runInfo) {
 		}
 	}
 	c.CountN("preemptions", pre)
+	for _, calls := range info.calls {
+		for _, ci := range calls {
+			if (ci.spec.Op == "Store" || ci.spec.Op == "LoadOrStore") && ci.spec.V == 0 {
+				c.Count("calls_storing_the_value_0")
+			}
+		}
+	}
 	labels := map[string]bool{}
 	for _, s := range r.Steps {
 		labels[s.Label] = true
@@ -195,16 +312,35 @@ func report(c *core.Ctx, cs Case, r sched.Result, info *runInfo) {
 		c.Fail("panic or runaway schedule in sync2.Map", r.Panic)
 	} else if r.Deadlock {
 		c.Fail("deadlock in sync2.Map", fmt.Sprint(r.Steps))
-	} else if msg := oracle(cs, r, info); msg != "" {
+	} else if msg := oracle(c, cs, r, info); msg != "" {
 		c.Fail(msg, describe(info))
 	} else {
 		failedNow = false
 	}
-	// Coq case
+	// Coq case: the 1-in-emitEvery sample, every failing run, and every run with a feature the model has seen
+	// in fewer than coverK cases
+	feats := features(r.Steps)
+	rare := false
+	for _, f := range feats {
+		cov.executed[f]++
+		if cov.replayed[f] < coverK {
+			rare = true
+		}
+	}
+	rare = rare && len(r.Steps) <= coverMaxSteps && !c.NoModel
 	emitCount++
-	if emitEvery > 1 && emitCount%emitEvery != 0 && !failedNow {
+	sampled := emitEvery <= 1 || emitCount%emitEvery == 0
+	if !sampled && !failedNow && !rare {
 		c.Count("explored_oracle_only")
 		return
+	}
+	if !sampled && !failedNow {
+		c.Count("replayed_for_label_coverage")
+	}
+	if !c.NoModel {
+		for _, f := range feats {
+			cov.replayed[f]++
+		}
 	}
 	progs := make([]string, len(cs.Progs))
 	results := make([]string, len(cs.Progs))
@@ -233,8 +369,23 @@ func describe(info *runInfo) string {
 	return sb.String()
 }
 
+// mutates: the call may change the map (everything but Load); such a call "touches" its key.
+func mutates(kind string) bool { return kind != "Load" }
+
 // oracle: the property itself on the observed history.
-func oracle(cs Case, r sched.Result, info *runInfo) string {
+//
+// One goroutine: call-by-call comparison with an ordinary map (any length), Range compared exactly.
+//
+// Several goroutines: (a) the history of the five calls, closed by a Load of every key after the end (the final
+// contents), must be linearizable to an ordinary map (brute force, harness/lin); (b) every Range call is held
+// against the SAME linearization: each pair (k,v) it passed to its function is added to the history as an
+// observation "k holds v" (a Load(k) = (v,true)) that has to take effect between the first and the last step of
+// that Range call - so a value overwritten before the Range began, or stored only after it ended, is rejected -
+// and, for a Range that was not stopped by its function, each key it did not pass and that no Store / LoadOrStore /
+// LoadAndDelete / Delete call overlapping the Range touched is added as an observation "k is absent" (Load(k) =
+// (_,false)) in the same interval - so a key that every linearization has present for the whole call, untouched,
+// must have been visited, whether or not the calls that set it up overlapped one another. (c) No key twice.
+func oracle(c *core.Ctx, cs Case, r sched.Result, info *runInfo) string {
 	// intervals: the k-th call of thread t owns t's steps between the previous call's end and its own end
 	var ops []lin.Op
 	type rng struct {
@@ -278,8 +429,18 @@ func oracle(cs Case, r sched.Result, info *runInfo) string {
 	for k := range fin {
 		keys[k] = true
 	}
-	all := append([]lin.Op{}, ops...)
+	for _, rg := range ranges {
+		for _, p := range rg.ci.pairs {
+			keys[p[0]] = true
+		}
+	}
+	keyList := make([]int, 0, len(keys))
 	for k := range keys {
+		keyList = append(keyList, k)
+	}
+	sort.Ints(keyList)
+	all := append([]lin.Op{}, ops...)
+	for _, k := range keyList {
 		v, ok := fin[k]
 		all = append(all, lin.Op{T: -1, First: end, Last: end, Kind: "Load", K: k, RV: v, ROK: ok})
 	}
@@ -317,6 +478,9 @@ func oracle(cs Case, r sched.Result, info *runInfo) string {
 				if (ci.spec.N == 0 || len(ci.pairs) < ci.spec.N) && len(ci.pairs) != len(ref) {
 					bad = true
 				}
+				if ci.spec.N > 0 && len(ci.pairs) > ci.spec.N {
+					bad = true // called again after the function returned false
+				}
 			}
 			if bad {
 				return fmt.Sprintf("sequential history: %s(%d,%d) returned (%d,%v) %v, an ordinary map holds %v", ci.spec.Op, ci.spec.K, ci.spec.V, ci.rv, ci.rok, ci.pairs, ref)
@@ -326,83 +490,113 @@ func oracle(cs Case, r sched.Result, info *runInfo) string {
 			return fmt.Sprintf("sequential history: final contents %v, an ordinary map holds %v", fin, ref)
 		}
 		for k, v := range ref {
-			if fin[k] != v {
+			if fv, ok := fin[k]; !ok || fv != v {
 				return fmt.Sprintf("sequential history: final contents %v, an ordinary map holds %v", fin, ref)
 			}
 		}
-	} else if len(all) <= 64 {
-		if ok, _ := lin.Check(nil, all); !ok {
-			return "history is not linearizable to a map"
-		}
+		return ""
 	}
-	// Range: at most once per key; only values the key could have held; keys present and untouched throughout are visited
+	// ---- several goroutines ----
+	if len(all) > 64 {
+		// never with the generators of run(): at most 7 set-up calls + 4 goroutines x 3 calls + one Load per key
+		c.Count("lin_unchecked_history_too_long")
+		c.Unobservable("C04 linearizability oracle: concurrent history of more than 64 calls (harness/lin limit), not checked")
+		return ""
+	}
+	c.Count("lin_checked")
+	if ok, _ := lin.Check(nil, all); !ok {
+		return "history is not linearizable to a map"
+	}
+	// Range observations
+	type obs struct {
+		op   lin.Op
+		what string
+	}
+	var perRange [][]obs
+	var perRangeCall []*callInfo
 	for _, rg := range ranges {
+		c.Count("range_concurrent_calls")
 		seen := map[int]bool{}
+		var os []obs
+		touched := map[int]bool{}
+		for _, o := range ops {
+			if mutates(o.Kind) && o.First <= rg.last && o.Last >= rg.first {
+				touched[o.K] = true
+			}
+		}
+		overlapped := len(touched) > 0
 		for _, p := range rg.ci.pairs {
 			if seen[p[0]] {
 				return fmt.Sprintf("Range passed key %d twice", p[0])
 			}
 			seen[p[0]] = true
-			okv := false
-			for _, o := range ops {
-				if o.K == p[0] && (o.Kind == "Store" || o.Kind == "LoadOrStore") && o.V == p[1] && o.First <= rg.last {
-					okv = true
-				}
+			os = append(os, obs{lin.Op{T: -2, First: rg.first, Last: rg.last, Kind: "Load", K: p[0], RV: p[1], ROK: true},
+				fmt.Sprintf("Range passed (%d,%d), a value key %d did not hold at any moment between the first and the last step of that Range call", p[0], p[1], p[0])})
+			c.Count("range_pairs_checked")
+			if !touched[p[0]] {
+				c.Count("range_untouched_keys_visited")
 			}
-			if !okv {
-				return fmt.Sprintf("Range passed (%d,%d), a value never stored for that key before the Range ended", p[0], p[1])
-			}
+		}
+		if rg.ci.spec.N > 0 && len(rg.ci.pairs) > rg.ci.spec.N {
+			return fmt.Sprintf("Range called its function %d times although it returned false at call %d", len(rg.ci.pairs), rg.ci.spec.N)
 		}
 		if rg.ci.spec.N == 0 || len(rg.ci.pairs) < rg.ci.spec.N {
-			// complete iteration: every key whose last write finished before the Range started, which held a value then,
-			// and which no call touched during the Range, must be visited. Decide "held a value" with the sequential
-			// replay of the calls that finished before the Range began, only when none of them overlaps another call.
-			before := map[int]int{}
-			ok := true
-			var prior []lin.Op
-			for _, o := range ops {
-				if o.Last < rg.first {
-					prior = append(prior, o)
-				} else if o.First <= rg.last {
-					before[o.K] = -1 // touched during the Range
-				}
+			// complete iteration: a key that was not passed and not touched during the call must have been absent at some moment of it
+			c.Count("range_complete_calls")
+			if overlapped {
+				c.Count("range_complete_calls_overlapping_a_write")
 			}
-			sort.Slice(prior, func(i, j int) bool { return prior[i].First < prior[j].First })
-			for i := 1; i < len(prior); i++ {
-				if prior[i].First <= prior[i-1].Last {
-					ok = false // overlapping earlier calls: skip the completeness check
+			for _, k := range keyList {
+				if seen[k] || touched[k] {
+					continue
 				}
-			}
-			if ok {
-				st := map[int]int{}
-				for _, o := range prior {
-					switch o.Kind {
-					case "Store":
-						st[o.K] = o.V
-					case "LoadOrStore":
-						if _, had := st[o.K]; !had {
-							st[o.K] = o.V
-						}
-					case "LoadAndDelete", "Delete":
-						delete(st, o.K)
-					}
-				}
-				for k, v := range st {
-					if _, touched := before[k]; touched {
-						continue
-					}
-					found := false
-					for _, p := range rg.ci.pairs {
-						if p[0] == k && p[1] == v {
-							found = true
-						}
-					}
-					if !found {
-						return fmt.Sprintf("Range missed key %d (value %d) that was present and untouched for the whole call", k, v)
-					}
-				}
+				os = append(os, obs{lin.Op{T: -2, First: rg.first, Last: rg.last, Kind: "Load", K: k, ROK: false},
+					fmt.Sprintf("Range missed key %d that was present and untouched for the whole call", k)})
+				c.Count("range_untouched_keys_not_visited_checked_absent")
 			}
 		}
+		perRange = append(perRange, os)
+		perRangeCall = append(perRangeCall, rg.ci)
+	}
+	joint := append([]lin.Op{}, all...)
+	for _, os := range perRange {
+		for _, o := range os {
+			joint = append(joint, o.op)
+		}
+	}
+	if len(joint) == len(all) {
+		return ""
+	}
+	if len(joint) <= 64 {
+		if ok, _ := lin.Check(nil, joint); ok {
+			return ""
+		}
+	} else {
+		c.Count("range_checked_one_call_at_a_time")
+	}
+	// the joint check failed (or the joint history is too long): find the Range call / the observation at fault
+	for i, os := range perRange {
+		one := append([]lin.Op{}, all...)
+		for _, o := range os {
+			one = append(one, o.op)
+		}
+		if len(one) > 64 {
+			c.Count("range_unchecked_history_too_long")
+			c.Unobservable("C04 Range oracle: history of more than 64 calls and Range observations, not checked")
+			continue
+		}
+		if ok, _ := lin.Check(nil, one); ok {
+			continue
+		}
+		for _, o := range os {
+			if ok, _ := lin.Check(nil, append(append([]lin.Op{}, all...), o.op)); !ok {
+				return o.what
+			}
+		}
+		return fmt.Sprintf("Range of thread %d passed %v: no linearization of the history has all of this (the pairs passed held, the untouched keys not passed absent) at moments within the Range call", perRangeCall[i].t, perRangeCall[i].pairs)
+	}
+	if len(joint) <= 64 {
+		return "the Range calls of this run are each consistent with a linearization of the history, but no single linearization agrees with all of them"
 	}
 	return ""
 }
@@ -415,7 +609,11 @@ func randCall(c *core.Ctx, nkeys int, rangePct int) CallSpec {
 	if c.Rng.Chance(rangePct) {
 		return CallSpec{Op: "Range", N: c.Rng.Intn(3)}
 	}
-	return CallSpec{Op: ops[c.Rng.Intn(5)], K: c.Rng.Intn(nkeys), V: 10 + c.Rng.Intn(90)}
+	v := 10 + c.Rng.Intn(90)
+	if c.Rng.Chance(15) {
+		v = 0 // the int 0 is an ordinary value of a Map[int,int] (audit item P3): equal values, different pointers
+	}
+	return CallSpec{Op: ops[c.Rng.Intn(5)], K: c.Rng.Intn(nkeys), V: v}
 }
 
 // layouts put the map into a chosen internal state before the concurrent part
@@ -525,27 +723,76 @@ func run(c *core.Ctx) {
 			emitEvery = 1
 		}
 	}
-	// 2. all schedules with at most P pre-emptions of small two-thread programs on chosen layouts
-	type prog2 struct{ a, b []CallSpec }
+	// 2. all schedules with at most P pre-emptions of small two-thread programs on chosen layouts.
+	// Battery: every pair (first goroutine: one of the five calls) x (second goroutine: one of the five calls, a full
+	// Range, a Range whose function stops at its first / second call), on the same key and on different keys (the
+	// second form ends with a Load that observes the first goroutine's key), plus programs aimed at the CAS loops.
+	type prog2 struct {
+		a, b, c []CallSpec
+		zero    bool // key 0 holds the value 0 when the goroutines start
+	}
 	mk := func(op string, k, v int) CallSpec { return CallSpec{Op: op, K: k, V: v} }
 	var battery []prog2
-	for _, oa := range []string{"Load", "Store", "LoadOrStore", "LoadAndDelete"} {
-		for _, ob := range []string{"Load", "Store", "LoadOrStore", "LoadAndDelete", "Range"} {
-			battery = append(battery, prog2{[]CallSpec{mk(oa, 0, 50)}, []CallSpec{mk(ob, 0, 60)}})
-			battery = append(battery, prog2{[]CallSpec{mk(oa, 2, 50)}, []CallSpec{mk(ob, 0, 60), mk("Load", 2, 0)}})
+	five := []string{"Load", "Store", "LoadOrStore", "LoadAndDelete", "Delete"}
+	var seconds []CallSpec
+	for _, ob := range five {
+		seconds = append(seconds, mk(ob, 0, 60))
+	}
+	seconds = append(seconds, CallSpec{Op: "Range"}, CallSpec{Op: "Range", N: 1}, CallSpec{Op: "Range", N: 2})
+	for _, oa := range five {
+		for _, sb := range seconds {
+			battery = append(battery, prog2{a: []CallSpec{mk(oa, 0, 50)}, b: []CallSpec{sb}})
+			battery = append(battery, prog2{a: []CallSpec{mk(oa, 2, 50)}, b: []CallSpec{sb, mk("Load", 2, 0)}})
 		}
 	}
+	// CAS loops: the second goroutine changes key 0's entry twice (value, then nil again) while the first one sits
+	// between a load and its CAS: second iteration of tryLoadOrStore's / tryExpungeLocked's loop (layouts with a nil
+	// entry for key 0), retries of tryStore and entry.delete
+	for _, oa := range []CallSpec{mk("LoadOrStore", 0, 50), mk("Store", 2, 50), mk("LoadOrStore", 2, 50), mk("Store", 0, 50), mk("LoadAndDelete", 0, 0), mk("Delete", 0, 0)} {
+		battery = append(battery, prog2{a: []CallSpec{oa}, b: []CallSpec{mk("Store", 0, 60), mk("Delete", 0, 0)}})
+		battery = append(battery, prog2{a: []CallSpec{oa}, b: []CallSpec{mk("LoadOrStore", 0, 60), mk("LoadAndDelete", 0, 0)}})
+	}
+	// value 0 (audit item P3): key 0 holds the int 0 (stored at the end of the set-up), the second goroutine stores 0
+	// again - same value, new pointer - while the first one sits between its load and its CAS: the CAS must fail
+	for _, oa := range []CallSpec{mk("Store", 0, 50), mk("LoadAndDelete", 0, 0), mk("Delete", 0, 0), mk("LoadOrStore", 0, 50), mk("Load", 0, 0)} {
+		battery = append(battery, prog2{a: []CallSpec{oa}, b: []CallSpec{mk("Store", 0, 0), mk("Load", 0, 0)}, zero: true})
+		battery = append(battery, prog2{a: []CallSpec{oa}, b: []CallSpec{mk("LoadAndDelete", 0, 0), mk("LoadOrStore", 0, 0)}, zero: true})
+	}
+	// a second turn of the loop in tryLoadOrStore / tryExpungeLocked needs the entry to change twice around the failing
+	// CAS; with two goroutines that takes three pre-emptions, with three goroutines (one stores, one deletes) two
+	for _, oa := range []CallSpec{mk("LoadOrStore", 0, 50), mk("Store", 2, 50)} {
+		battery = append(battery, prog2{a: []CallSpec{oa}, b: []CallSpec{mk("Store", 0, 60)}, c: []CallSpec{mk("Delete", 0, 0)}})
+	}
 	maxPre := c.N(2, 3, 2)
-	limit := c.N(300, 1500, 600)
+	limit := c.N(1000, 1500, 600) // a cap only: the largest <= 2 pre-emption space of the battery has about 650 schedules
 	nlay := 7
-	emitEvery, emitCount = c.N(60, 60, 1), 0 // all explored schedules go through the oracle, one in 60 through the model
+	emitEvery, emitCount = c.N(60, 60, 1), 0 // all explored schedules go through the oracle, one in 60 (and every run with a rarely replayed label) through the model
 	for _, b := range battery {
 		for lay := 0; lay < nlay; lay++ {
 			cs := Case{Prefix: layout(c, lay), Progs: [][]CallSpec{b.a, b.b}, Kind: fmt.Sprintf("explore_l%d", lay)}
-			exploreCase(c, cs, maxPre, limit)
+			if b.c != nil {
+				cs.Progs = append(cs.Progs, b.c)
+			}
+			if b.zero {
+				cs.Prefix = append(append([]CallSpec{}, cs.Prefix...), mk("Store", 0, 0))
+				cs.Kind = fmt.Sprintf("explore_zero_l%d", lay)
+			}
+			c.Count("explore_programs")
+			n := exploreCase(c, cs, maxPre, limit)
+			if n > c.Stats["explore_max_schedules_of_one_program"] {
+				c.Stats["explore_max_schedules_of_one_program"] = n
+			}
+			if n >= limit {
+				c.Count("explore_programs_cut_at_limit") // the <= maxPre pre-emption space of this program was NOT enumerated completely
+			}
 		}
 	}
 	emitEvery = 1
+	if n := c.Stats["explore_programs_cut_at_limit"]; n > 0 {
+		c.Note(fmt.Sprintf("exploration: %d of %d (program, layout) pairs reached the limit of %d schedules before their <= %d pre-emption space was exhausted", n, c.Stats["explore_programs"], limit, maxPre))
+	} else {
+		c.Note(fmt.Sprintf("exploration: the <= %d pre-emption schedule space of all %d (program, layout) pairs was enumerated completely (no pair reached the limit of %d schedules; largest space: %d schedules)", maxPre, c.Stats["explore_programs"], limit, c.Stats["explore_max_schedules_of_one_program"]))
+	}
 	// 3. random schedules of random 2-4 thread programs
 	for i := c.N(400, 30000, 6000); i > 0; i-- {
 		nt := 2 + c.Rng.Intn(3)
@@ -560,17 +807,74 @@ func run(c *core.Ctx) {
 		r, info := execute(cs, sched.Random(c.Rng.Intn, 50))
 		report(c, cs, r, info)
 	}
+	coverageReport(c, mapLabels)
 }
 
 // exploreCase enumerates, breadth-first by number of pre-emptions, schedules of the concurrent part;
 // the set-up prefix runs alone first (thread 0 is forced while it still executes prefix calls).
-func exploreCase(c *core.Ctx, cs Case, maxPre, limit int) {
+//
+// A schedule is explored by re-running the program along a prefix of thread choices taken from an earlier run and
+// deviating at its end. The runs are not deterministic, though: dirtyLocked and Range iterate a Go map, whose order
+// the runtime randomises on every iteration, so the re-run may process the keys in another order and the deviation
+// would then land at a different point (and the point aimed at would never be visited). Therefore every run records,
+// for each of its prefixes, a signature of the steps (goroutine, label, key) executed so far, and a re-run that does
+// not reproduce the signature of the prefix it was derived from is repeated (a fresh iteration order each time) until
+// it does, at most exploreTries times.
+const exploreTries = 40
+
+func exploreCase(c *core.Ctx, cs Case, maxPre, limit int) int {
 	probe := Case{Prefix: cs.Prefix, Progs: [][]CallSpec{{}}, Kind: "probe"}
 	r0, _ := execute(probe, sched.NonPreemptive)
 	base := r0.Chosen
-	sched.ExploreBFS(func(prefix []int) sched.Result {
-		r, info := execute(cs, sched.Prefix(prefix))
+	sigs := map[uint64]uint64{} // hash of a prefix of choices -> hash of the steps executed along it (set-up excluded)
+	const off, prime = 14695981039346656037, 1099511628211
+	mix := func(h uint64, x int) uint64 { return (h ^ uint64(x+1)) * prime }
+	stepSig := func(h uint64, s sched.Step) uint64 {
+		h = mix(h, s.T)
+		for i := 0; i < len(s.Label); i++ {
+			h = mix(h, int(s.Label[i]))
+		}
+		return mix(h, s.Key)
+	}
+	return sched.ExploreBFS(func(prefix []int) sched.Result {
+		var want uint64
+		have := false
+		if len(prefix) > len(base) {
+			hc := uint64(off)
+			for _, t := range prefix[:len(prefix)-1] {
+				hc = mix(hc, t)
+			}
+			want, have = sigs[hc]
+		}
+		var r sched.Result
+		var info *runInfo
+		for try := 1; ; try++ {
+			r, info = execute(cs, sched.Prefix(prefix))
+			if !have {
+				break
+			}
+			hs := uint64(off)
+			for j := len(base); j < len(prefix)-1 && j < len(r.Steps); j++ {
+				hs = stepSig(hs, r.Steps[j])
+			}
+			if hs == want {
+				break
+			}
+			if try >= exploreTries {
+				c.Count("explore_runs_that_did_not_reproduce_their_prefix")
+				break
+			}
+			c.Count("explore_reruns_for_map_iteration_order")
+		}
 		report(c, cs, r, info)
+		hc, hs := uint64(off), uint64(off)
+		for j := 0; j < len(r.Steps) && j < len(r.Chosen); j++ {
+			if j >= len(base) {
+				sigs[hc] = hs // the steps before step j, for children that deviate at step j
+				hs = stepSig(hs, r.Steps[j])
+			}
+			hc = mix(hc, r.Chosen[j])
+		}
 		return r
 	}, base, maxPre, limit, func(sched.Result) {})
 }
